@@ -140,3 +140,58 @@ func exceeds(v reflect.Value) bool {
 	}
 	return false
 }
+
+// LenAt is the position of one slice / string length prefix inside an encoding, with the maxlen of its field (0 = none).
+type LenAt struct {
+	Off    int
+	MaxLen int
+}
+
+// EncodeLenOffsets serialises v like Encode and reports where every length prefix was written.
+func EncodeLenOffsets(v interface{}) ([]byte, []LenAt) {
+	rv := reflect.Indirect(reflect.ValueOf(v))
+	var out []byte
+	var lens []LenAt
+	encodeTrack(&out, &lens, rv, 0)
+	return out, lens
+}
+
+func encodeTrack(out *[]byte, lens *[]LenAt, v reflect.Value, maxlen int) {
+	switch v.Kind() {
+	case reflect.Array:
+		for i := 0; i < v.Len(); i++ {
+			encodeTrack(out, lens, v.Index(i), 0)
+		}
+	case reflect.Slice:
+		*lens = append(*lens, LenAt{Off: len(*out), MaxLen: maxlen})
+		*out = binary.LittleEndian.AppendUint32(*out, uint32(v.Len()))
+		for i := 0; i < v.Len(); i++ {
+			encodeTrack(out, lens, v.Index(i), 0)
+		}
+	case reflect.String:
+		*lens = append(*lens, LenAt{Off: len(*out), MaxLen: maxlen})
+		encode(out, v)
+	case reflect.Struct:
+		t := v.Type()
+		n := t.NumField()
+		for i := 0; i < n; i++ {
+			f := t.Field(i)
+			if f.PkgPath != "" || f.Name == "_" {
+				continue
+			}
+			tag := f.Tag.Get("enc")
+			if strings.HasPrefix(tag, "-") {
+				continue
+			}
+			fv := v.Field(i)
+			if strings.Contains(tag, ",omitempty") && i == n-1 {
+				if (fv.Kind() == reflect.Slice || fv.Kind() == reflect.String || fv.Kind() == reflect.Map) && fv.Len() == 0 {
+					continue
+				}
+			}
+			encodeTrack(out, lens, fv, MaxLen(tag))
+		}
+	default:
+		encode(out, v)
+	}
+}
